@@ -101,7 +101,7 @@ Qed.
 Corollary huffman_section_meets_O2 ws dec M bits ranks idxs :
   Forall (fun w => 0 <= w) ws -> (length ws <= 255)%nat ->
   build_table_from_weights ws = ROk (dec, M, bits, ranks, idxs) ->
-  exists lw codes, 1 <= lw <= M /\ enc_build_from_weights (ws ++ [lw]) = ROk codes /\
+  exists lw codes, 1 <= lw <= M /\ enc_build_from_weights (ws ++ [lw]) = ROk codes /\ bits = map (bits_of M) (ws ++ [lw]) /\
     forall h desc lits ft,
       Forall (fun s => 0 <= s <= Z.of_nat (length ws) /\ 0 < nth (Z.to_nat s) (ws ++ [lw]) 0) lits ->
       16 <= Z.of_nat (length lits) <= 131072 ->
@@ -112,8 +112,8 @@ Proof.
   intros Hnn Hlen Hb.
   set (t0 := {| ht_decode := dec; ht_len := 2 ^ M; ht_weights := ws; ht_max_bits := M; ht_bits := bits; ht_bit_ranks := ranks;
                 ht_rank_indexes := idxs; ht_fse := fse_new 255 |}).
-  destruct (encoder_and_decoder_agree ws dec M bits ranks idxs t0 Hnn Hlen Hb eq_refl eq_refl) as (lw & codes & Hlw & Henc & Hag).
-  exists lw, codes. split; [exact Hlw|]. split; [exact Henc|].
+  destruct (encoder_and_decoder_agree ws dec M bits ranks idxs t0 Hnn Hlen Hb eq_refl eq_refl) as (lw & codes & Hlw & Henc & Hag & Ebits).
+  exists lw, codes. split; [exact Hlw|]. split; [exact Henc|]. split; [exact Ebits|].
   intros h desc lits ft Hlits Hn payload Hrw Hpl.
   apply (huffman_section_for_any_weights h ws desc lits dec M bits ranks idxs ft lw codes Hnn Hlen Hb Henc); try assumption.
   intros t Hd Hm s Hs Hpos.
